@@ -129,6 +129,111 @@ def sub_guarded(body, bb, t):
     return False
 
 
+# ---- unwrap() of a Value accessor under a kind test ------------------------------------------------------------------------
+
+_KIND_CACHE = {}
+
+
+def kind_tables(crate):
+    """(inner->kind, {is_x: set of kinds}, {accessor: set of inner variants for which it is definitely Some}) read off the MIR"""
+    key = id(crate)
+    if key in _KIND_CACHE:
+        return _KIND_CACHE[key]
+    from engine import VariantWalk, option_table
+    vi = crate.adts.get("value::ValueInner")
+    res = ({}, {}, {})
+    if vi is not None:
+        kb = crate.bodies.get("value::Value::kind")
+        inner2kind = {}
+        if kb is not None:
+            vw = VariantWalk(kb, vi, 1, lambda l: 0 if l.kind == "param" and l.detail == 1 else None)
+            st = vw.run()
+            for bb, idx, s_ in kb.stmts():
+                if idx != "t" and s_["k"] == "assign" and s_["pl"]["l"] == 0 and not s_["pl"]["p"] and s_["rv"]["k"] == "agg" and str(s_["rv"].get("adt", "")).endswith("ValueKind"):
+                    for (v,) in st.get(bb, ()):
+                        inner2kind.setdefault(v, set()).add(s_["rv"]["variant"])
+            inner2kind = {k: next(iter(v)) for k, v in inner2kind.items() if len(v) == 1}
+        is_tab = {}
+        acc_tab = {}
+        for p_, b in crate.bodies.items():
+            if not p_.startswith("value::Value::") or b.kind not in ("fn", "assoc_fn") or p_.count("::") != 2:
+                continue
+            name = p_.rsplit("::", 1)[-1]
+            rty = b.local_ty(0)
+            if name.startswith("is_") and rty == "bool" and b.arg_count == 1:
+                # matches!(self.kind(), A | B): kinds on whose edge the constant true is returned
+                ef = EdgeFacts(b, crate)
+                kinds = set()
+                okshape = False
+                for sb in sorted(b.reachable):
+                    if b.term(sb)["k"] != "switch":
+                        continue
+                    for tgt, fl in ef.facts_for_switch(sb).items():
+                        for f in fl:
+                            if f[0] == "variant" and f[1].endswith("ValueKind") and f[4]:
+                                okshape = True
+                                vals = set()
+                                for bb, idx, s_ in b.stmts(sorted(x for x in b.reach_from(tgt) if b.dominates(tgt, x))):
+                                    if idx != "t" and s_["k"] == "assign" and s_["pl"]["l"] == 0 and s_["rv"]["k"] == "use" and s_["rv"]["op"]["k"] == "const":
+                                        vals.add(str(s_["rv"]["op"].get("v")))
+                                if vals == {"1"}:
+                                    kinds |= set(f[3])
+                if okshape and len([1 for bb, t in b.calls()]) == 1:
+                    is_tab[p_] = kinds
+            elif rty.startswith("std::option::Option<") and b.arg_count == 1:
+                try:
+                    t = option_table(b, vi)
+                    acc_tab[p_] = {k for k, v in t.items() if v == "some"}
+                except Exception:
+                    pass
+        res = (inner2kind, is_tab, acc_tab)
+    _KIND_CACHE[key] = res
+    return res
+
+
+def unwrap_kind_guarded(crate, body, bb, t):
+    """the unwrap/expect at bb takes the result of a Value accessor that is definitely Some for every kind the value can have here:
+    the site is dominated by an edge of `match v.kind()` / `if v.is_x()` on the same value that leaves only such kinds"""
+    a = t["args"][0] if t["args"] else None
+    if not a or a["k"] not in ("copy", "move") or a["pl"]["p"]:
+        return False
+    ds = [d for d in body.defs.get(a["pl"]["l"], []) if not d[2]]
+    if len(ds) != 1 or ds[0][3]["k"] != "call":
+        return False
+    at = ds[0][3]["t"]
+    inner2kind, is_tab, acc_tab = kind_tables(crate)
+    some_for = acc_tab.get(callee_def(at))
+    if not some_for or not at["args"]:
+        return False
+    some_kinds = {inner2kind[v] for v in some_for if v in inner2kind}
+    V = src_of(body, at["args"][0])
+    ef = EdgeFacts(body, crate)
+    for sb in sorted(body.reachable):
+        st = body.term(sb)
+        if st["k"] != "switch" or sb == bb or not body.dominates(sb, bb):
+            continue
+        for tgt, fl in ef.facts_for_switch(sb).items():
+            if tgt == sb or not body.dominates(tgt, bb) or len(body.pred[tgt]) != 1:
+                continue
+            for f in fl:
+                if f[0] == "variant" and f[1].endswith("ValueKind") and f[4]:
+                    # the discriminant read is of the result of v.kind()
+                    d = ef.single_def(st["op"]["pl"]["l"])
+                    if d and d[3]["k"] == "discr" and not d[3]["pl"]["p"]:
+                        kd = [x for x in body.defs.get(d[3]["pl"]["l"], []) if not x[2]]
+                        if len(kd) == 1 and kd[0][3]["k"] == "call" and callee_def(kd[0][3]["t"]) == "value::Value::kind" \
+                                and src_of(body, kd[0][3]["t"]["args"][0]) == V and set(f[3]) <= some_kinds:
+                            return True
+                if f[0] == "call" and f[3] is True and f[1] in is_tab:
+                    ct = body.term(f[4])
+                    if ct["args"] and src_of(body, ct["args"][0]) == V and is_tab[f[1]] and is_tab[f[1]] <= some_kinds:
+                        return True
+                if f[0] == "call" and f[3] is False and f[1] in is_tab:
+                    # `if !v.is_map() { return Err }` — on the false edge nothing is known; on the edge where is_x is FALSE we learn nothing useful
+                    pass
+    return False
+
+
 def sites_of(crate, body):
     """yield (kind, detail, bb) for every panic-capable site of one body"""
     if body.kind == "const":
@@ -166,7 +271,8 @@ def sites_of(crate, body):
                     yield (kind, "index %s [%s]" % (short_ty(st or rty), short_ty(ity)), bb)
                 continue
             if any(UNWRAPS.search(n) for n in names):
-                yield ("K2", "%s %s" % (cd.rsplit("::", 1)[-1], first_str_const(body, t)), bb)
+                g = "[Some under the dominating kind test]" if unwrap_kind_guarded(crate, body, bb, t) else ""
+                yield ("K2", " ".join(x for x in (cd.rsplit("::", 1)[-1], first_str_const(body, t).strip(), g) if x), bb)
                 continue
             if any(PANICS.search(n) for n in names):
                 msg = first_str_const(body, t)
